@@ -17,6 +17,10 @@ type maySets struct {
 // maySetOf: universe are the names of the constants; loc is the rendering of the tested value.
 // Sound only if the location is not written inside fn (checked by the caller where it matters).
 func (p *Program) maySetOf(fn *ssa.Function, loc string, universe []string) *maySets {
+	return p.maySetOfWith(fn, loc, universe, p.Render)
+}
+
+func (p *Program) maySetOfWith(fn *ssa.Function, loc string, universe []string, render func(ssa.Value) string) *maySets {
 	ms := &maySets{in: map[*ssa.BasicBlock]map[string]bool{}}
 	if len(fn.Blocks) == 0 {
 		return ms
@@ -43,8 +47,8 @@ func (p *Program) maySetOf(fn *ssa.Function, loc string, universe []string) *may
 				} else if _, isC := r.x.(*ssa.Const); isC {
 					cv, lv = r.x, r.y
 				}
-				if cv != nil && p.Render(lv) == loc {
-					t = &test{k: p.Render(cv), eq: r.op == relEQ}
+				if cv != nil && render(lv) == loc {
+					t = &test{k: render(cv), eq: r.op == relEQ}
 				}
 			}
 			tests[f.cond] = t
